@@ -22,7 +22,7 @@ TRUSTED = [
     "run behaviour is compared as (outcome class, captured output, final value) at -O0 and -O2 under an instruction budget; "
     "for rejected programs only the fact of rejection is compared (messages contain positions)",
 ]
-IMPORTS = "From Aelys Require Import Extracted.AsiTokens Model.Asi Model.Literal Model.AsiObs."
+IMPORTS = "From Aelys Require Import Extracted.AsiTokens Model.Asi Model.Literal Model.BlockParse Model.AsiObs."
 
 KNOWN_CLASS = {
     "tilde-at-block-value": "the value of an if-expression branch starts with the prefix operator `~` (KF-C15-3, repaired by 3fa327d)",   # repaired root causes the corpus pairs guard against (regression cases)
@@ -234,13 +234,49 @@ def run(ctx):
                       {"text": lmeta[i][1], "implementation": lmeta[i][2], "program": lmeta[i][1]})
     ctx.add_samples([{"literal": lmeta[i][1], "value": lmeta[i][2]} for i in (60, len(lmeta) // 2) if i < len(lmeta)])
 
+    # ---------------------------------------------------------------- value-block parser contract
+    rc, out = vlib.sh([hx, "--mode", "blk", "--seed", str(ctx.seed), "--n", "3000" if quick else "40000"], timeout=600)
+    if rc != 0:
+        ctx.violation("c15:harness-crash:blk", "hx_asi --mode blk crashed", {"tail": out[-2000:]})
+        return
+    bcases, bmeta, bhist = [], [], {}
+    for line in out.split("\n"):
+        p = line.split("\t")
+        if len(p) != 5 or p[0] != "B":
+            continue
+        ob = p[3]
+        bhist[ob.split()[0]] = bhist.get(ob.split()[0], 0) + 1
+        if ob in ("Shape", "Panic"):
+            ctx.violation("c15:value-block:" + ob.lower(), "the parser panicked on / produced an unexpected AST shape for a value block",
+                          {"items": p[2], "program": unesc(p[4])})
+            continue
+        bcases.append((p[2][len("QBlk "):], "(" + ob + ")"))
+        bmeta.append((p[2], ob, p[4]))
+        distinct.add("blk:" + p[2])
+    total += len(bcases)
+    dist["value_block_cases"] = bhist
+    fails, err = vlib.coq_eval_cases("c15b", IMPORTS, "block_value", "bresult_eqb", bcases, shard=500)
+    if err:
+        ctx.broken.append("correspondence C15 (value blocks): model evaluation failed")
+        ctx.log(err[-3000:])
+    if fails:
+        ctx.broken.append(f"correspondence C15 (value blocks): parser model and real parser differ on {len(fails)} item lists")
+        mo, _ = vlib.coq_eval_terms("c15b", IMPORTS, [f"block_value ({bcases[i][0]})" for i in fails[:6]])
+        ctx.cov["value_block_disagreements"] = [{"items": bmeta[i][0][:300], "parser": bmeta[i][1], "model": m, "text": unesc(bmeta[i][2])[:300]}
+                                                for i, m in zip(fails[:6], mo)]
+        i = fails[0]
+        ctx.violation("c15:model-mismatch:value-block", "the real parser's result for a value block differs from the block parser model",
+                      {"items": bmeta[i][0], "parser": bmeta[i][1], "program": unesc(bmeta[i][2])})
+    if bmeta:
+        ctx.add_samples([{"value_block_items": bmeta[len(bmeta) // 2][0][:300], "parser": bmeta[len(bmeta) // 2][1], "text": unesc(bmeta[len(bmeta) // 2][2])[:200]}])
+
     # ---------------------------------------------------------------- programs vs re-layouts (direct oracle)
     nprog = 500 if quick else 5000
     rc, out = vlib.sh([hx, "--mode", "var", "--seed", str(ctx.seed), "--n", str(nprog), "--opts", "0,2"], timeout=1500)
     if rc != 0:
         ctx.violation("c15:harness-crash:var", "hx_asi --mode var crashed", {"tail": out[-2000:]})
         return
-    fam_hist, cls_hist, positions = {}, {}, {}
+    fam_hist, cls_hist, positions, ast_hist = {}, {}, {}, {}
     nviol = {"known": 0, "new": 0}
     nvar = 0
     for line in out.split("\n"):
@@ -259,9 +295,16 @@ def run(ctx):
             distinct.add(("var", pid, fam, flags, opt))
         if p[8] and len(ctx.cov["samples"]) < 6 and same == "1" and fam in ("Semi", "Breaks", "Parens"):
             ctx.add_samples([{"family": fam, "base": unesc(p[8])[:500], "variant": unesc(p[9])[:700], "class": cb}])
+        fl = dict(x.split("=") for x in flags.split(","))
+        ast_hist[fl.get("ast", "?")] = ast_hist.get(fl.get("ast", "?"), 0) + 1
+        if same == "1" and fl.get("ast") == "0":
+            # parser-level oracle: the two texts run alike but the parser built different trees (modulo spans,
+            # Grouping nodes and the folding of a negated literal)
+            r = ctx.violation(f"c15:ast-differs:{fam}", f"re-layout by family {fam} changes the AST although the program behaves the same ({flags}, -O{opt})",
+                              {"family": fam, "flags": flags, "opt": opt, "base_program": unesc(p[8]), "variant_program": unesc(p[9])})
+            nviol[r] += 1
         if same == "1":
             continue
-        fl = dict(x.split("=") for x in flags.split(","))
         bsep, vsep = [int(x) for x in fl["sep_inside_parens"].split("/")]
         rep = {"family": fam, "flags": flags, "opt": opt, "base_class": cb, "variant_class": cv,
                "base_program": unesc(p[8]), "variant_program": unesc(p[9]), "base_output": p[10], "variant_output": p[11]}
@@ -279,6 +322,7 @@ def run(ctx):
         nviol[r] += 1
     total += nvar
     dist["variant_runs_by_family"] = fam_hist
+    dist["variant_ast_equal (1 equal, 0 different, - a text was rejected)"] = ast_hist
     # how often each family was applied in each syntactic position it can be applied in; a position the
     # generator never reaches is a hole in the search and is reported
     ctx.cov["position_distribution"] = positions
@@ -296,6 +340,6 @@ def run(ctx):
                        "templates joined by random separators and uniformly random piece lists (malformed stream), rendered with random token spellings, "
                        "blanks and comment texts; literal contract: 50 fixed edge texts + seeded values in 8 magnitude classes spelled in 4 radices with "
                        "random underscores/case, every 5th damaged; variants: seeded programs (let/assign/++/print/if-else with else on the same or its "
-                       "own line/while/for/fn/lambda/Vec and Array literals/calls/index) rendered canonically and by each of 7 families (Semi, Blank, "
-                       "Indent, Comment, Parens, Literal, Breaks) twice, run at -O0 and -O2; distinct_nontrivial = distinct piece lists + distinct literal "
+                       "own line/while/for/fn/lambda/Vec and Array literals/calls/index) rendered canonically and by each of 8 families (Semi, Blank, "
+                       "Indent, Comment, Parens, Literal, Breaks, Reflow) twice, run at -O0 and -O2; distinct_nontrivial = distinct piece lists + distinct literal "
                        "texts + distinct (program, family, variant, level) whose original is accepted and runs")
